@@ -9,5 +9,5 @@ LEVEL = "proof"
 def run(ctx, out):
     dcheck.run_property(ctx, out, "C05", "mon_c05_all", n_quick=300, n_thorough=5000,
                         gen_kw=dict(ws_share=0.45, batches=0.05, malformed=0.08, quiesce_close=True, close_rate=0.12),
-                        directed=directed.regressions() + directed.batch_orders() + directed.close_positions(ctx.thorough) + directed.reauth_after_fetch() + directed.orphan_routes() + directed.ws_control_under_faults() + directed.write_error_after_progress() + directed.faulty_caller_batched())
+                        directed=directed.regressions() + directed.batch_orders() + directed.close_positions(ctx.thorough) + directed.reauth_after_fetch() + directed.orphan_routes() + directed.ws_control_under_faults() + directed.write_error_after_progress() + directed.faulty_caller_batched() + directed.fetcher_table_churn())
     out.assumptions += ["the model's notion of 'released' is per peer; byte-level dangling accesses are what ASan in the harness reports"]
